@@ -427,8 +427,13 @@ func (fb *FullBlockImage) Resize(w int, h int) {
 		y *= 2
 
 		top := img.At(x, y)
-		bot := img.At(x, y+1)
-		r, g, b, a := averageColor(top, bot)
+		r, g, b, a := toRGB(top)
+		if y+1 < img.Bounds().Max.Y {
+			// The last row of an image with an odd height covers
+			// one pixel only
+			bot := img.At(x, y+1)
+			r, g, b, a = averageColor(top, bot)
+		}
 		switch {
 		// TODO: What is the right value for alpha that we should set
 		// the background color = 0??
